@@ -10,6 +10,7 @@ use std::io::Seek;
 use std::io::Write;
 use std::path::PathBuf;
 use std::time::Duration;
+use std::time::Instant;
 
 use anyhow::Context;
 use anyhow::Result;
@@ -99,6 +100,7 @@ impl Runner for SubprocessRunner {
         }
 
         // constraint max execution time?
+        let started = Instant::now();
         let mut comm = process.communicate_start(Some(input.as_bytes().to_vec()));
         if let Some(timeout) = testcase.config.timeout {
             comm = comm.limit_time(timeout);
@@ -136,10 +138,26 @@ impl Runner for SubprocessRunner {
                         OutputExitStatus::Unknown
                     }
                 } else if kind == ErrorKind::TimedOut {
-                    // abort the execution, do not leave the timed out shell running
-                    let _ = process.kill();
-                    let _ = process.wait();
-                    OutputExitStatus::Timeout(testcase.config.timeout.unwrap_or_default())
+                    // this is also what is reported when the shell ended (`exit 80`)
+                    // before it has read all of a large input: nothing is left to read
+                    // and the remaining input can not be written anymore
+                    let remaining = testcase
+                        .config
+                        .timeout
+                        .map(|timeout| timeout.saturating_sub(started.elapsed()));
+                    let ended = match remaining {
+                        Some(remaining) if remaining.is_zero() => None,
+                        Some(remaining) => process.wait_timeout(remaining).ok().flatten(),
+                        None => process.wait().ok(),
+                    };
+                    if let Some(status) = ended {
+                        status.into()
+                    } else {
+                        // abort the execution, do not leave the timed out shell running
+                        let _ = process.kill();
+                        let _ = process.wait();
+                        OutputExitStatus::Timeout(testcase.config.timeout.unwrap_or_default())
+                    }
                 } else {
                     OutputExitStatus::Unknown
                 };
